@@ -170,11 +170,72 @@ def async_stream(ctx, tg, wd, tfile):
         ctx.case_done("async%d" % j, ncmp > 0)
 
 
+def early_exits(ctx, tg, wd, dis, use_model):
+    """the ways the set-up can end other than by reaching the simulation: `return` (nothing to do, unknown output type),
+    `return EXIT_FAILURE` (option error caught), and the HDF5 error path that sets the flag itself; each also with SIGINT
+    at hook points of the set-up.  The extracted model runs the generated set-up skeleton under the environment inferred
+    from the run's own label trace; exit status, hook points passed, closing message must agree, and the property
+    (exit status as the program decided it, no crash, "Aborted." whenever the simulation part was reached) must hold."""
+    base = dict(n=16, N=6, T=1, outstep=2, h5save=1, renorm=0, wake=False, dynrf=False, tracking=None, verbose=False)
+    cases = [("nothing-to-do", dict(base), None, 0, False),
+             ("unknown-output-type", dict(base), os.path.join(wd, "early.xyz"), 0, False),
+             ("option-error", dict(base, extra=["--NoSuchOption", "1"]), os.path.join(wd, "early.h5"), 1, False),
+             ("file-cannot-be-created", dict(base, hdf=False), os.path.join(wd, "no_such_dir", "early.h5"), 0, True)]
+    for name, cfg, out, rc_want, reaches in cases:
+        tp = os.path.join(wd, "early.trace")
+        un = dc.run_real(tg, cfg, out, trace_path=tp)
+        reached = "sim:start" in un["labels"]
+        case0 = dict(cmd=un["cmd"], kind="early-exit", which=name)
+        if un["rc"] != rc_want or reached != reaches:
+            ctx.violation("impl-oracle", "set-up exit `%s`: exit status %s (expected %d), simulation part %sreached" % (
+                name, un["rc"], rc_want, "" if reached else "not "), case=case0, observed=un["log"][-300:], sig={"oracle": "early-exit", "where": name})
+            continue
+        orc = dc.setup_oracle(un["labels"], reached, un["rc"]) if use_model else None
+        if use_model and orc is None:
+            dis.append(dict(case=case0, detail="no environment of the set-up skeleton reproduces the label trace %s" % un["labels"][-3:],
+                            sig={"stage": "correspondence", "what": "setup-oracle"}))
+        P = len(un["labels"])
+        plan = [(None, False)] + [(i, False) for i in sorted(set([0, P // 2, P - 1]))] + [(0, True)]
+        mcfg = dict(cfg, _oracle=orc) if orc is not None else None
+        models = dc.run_model([("e%s_%d" % (i, rep), mcfg, i, rep, 0) for i, rep in plan]) if mcfg else {}
+        for i, rep in plan:
+            r = un if i is None else dc.run_real(tg, cfg, out, sig_at=i, rep=rep, trace_path=tp)
+            case = dict(case0, INOVESA_VERIF_SIGINT_AT=i, INOVESA_VERIF_SIGINT_REPEAT=rep)
+            # stdout and stderr are captured together (the HDF5 error stack goes to stderr): last time-stamped line
+            stamped = [l for l in r["log"].splitlines() if l.startswith("[")]
+            tail = dc.log_tail("\n".join(stamped))
+            ctx.count("early:" + name)
+            # property: a signal during the set-up does not change how the set-up ends; the program still exits by itself
+            if r["rc"] != rc_want or r["labels"] != un["labels"][:len(r["labels"])] or (reaches and tail != "Aborted."):
+                ctx.violation("impl-oracle", "set-up exit `%s` with SIGINT at point %s: exit status %s, %d hook points (undisturbed: %d), last message %r" % (
+                    name, i, r["rc"], len(r["labels"]), P, tail), case=case, sig={"oracle": "early-exit-signal", "where": name})
+            mo = models.get("e%s_%d" % (i, rep))
+            if mo is not None:
+                spts = dc.setup_info()["points"]
+                ms = [spts[j] for j in mo.get("setup_trace", [])]
+                rs = [l for l in r["labels"] if l.startswith("setup:")]
+                mstat = mo["status"]
+                bad = []
+                if ms != rs:
+                    bad.append("set-up hook points: real %d, model %d" % (len(rs), len(ms)))
+                if mstat != str(r["rc"]):
+                    bad.append("exit status real %s model %s" % (r["rc"], mstat))
+                if (mo.get("kind") == 0) != reaches:
+                    bad.append("model ends with kind %s" % mo.get("kind"))
+                if reaches and (not mo["log"] or mo["log"][-1] != tail):
+                    bad.append("closing message real %r model %r" % (tail, mo["log"][-1:]))
+                for b in bad:
+                    dis.append(dict(case=case, detail=b, sig={"stage": "correspondence", "what": "early-exit"}))
+            ctx.case_done("early:%s@%s%s" % (name, i, "r" if rep else ""), i is not None)
+
+
 def run(ctx):
     ctx.rule = ("short runs (grid 16/32, 6-8 steps, outstep 2/3, SavePhaseSpace 1, wake on, tracking on, renormalisation "
                 "off/initial/periodic); SIGINT raised by the hook at the i-th executed point, for EVERY point of the run (set-up included), a third "
                 "(quick, one configuration) / a quarter (thorough, three configurations) of them also with repeated signals; "
-                "thorough also asynchronous kill -INT at random times; "
+                "thorough also asynchronous kill -INT at random times; four ways of leaving the set-up early (nothing to do, unknown output type, option "
+                "error, results file cannot be created), each undisturbed and with SIGINT at set-up points; the model executes the generated "
+                "set-up skeleton under the environment inferred from the run's own label trace; "
                 "non-trivial = the interrupt arrives after start-up or cuts the run short and records were compared")
     coq = vp_coq.full_check("C14", ctx, fams=("driver",))
     tg = ctx.build(harness=("h5cat",), want_binary=True)
@@ -203,6 +264,16 @@ def run(ctx):
             ctx.violation("impl-oracle", "uninterrupted run failed", case=dict(cmd=un["cmd"]), observed=un["log"][-400:], sig={"oracle": "run-failed"})
             continue
         nsetup = len([l for l in un["labels"] if l.startswith("setup:")])
+        if use_model:
+            # the model executes the generated set-up skeleton too, under the environment (values of the conditions the
+            # translator does not look into) inferred from this uninterrupted run
+            orc = dc.setup_oracle(un["labels"], True)
+            if orc is None:
+                dis.append(dict(case=dict(cmd=un["cmd"]), detail="no environment of the set-up skeleton reproduces the label trace",
+                                sig={"stage": "correspondence", "what": "setup-oracle"}))
+            else:
+                cfg = dict(cfg, _oracle=orc)
+                refcfg = dict(refcfg, _oracle=orc)
         for x in (dc.compare_with_model(cfg, un, hun, dc.run_model([("m", cfg, None, False, nsetup)])["m"], points, nsetup) if use_model else []):
             dis.append(dict(case=dict(cmd=un["cmd"]), detail=x, sig={"stage": "correspondence", "what": x.split(" ")[0]}))
         P = len(un["labels"])
@@ -219,6 +290,7 @@ def run(ctx):
             check_outcome(ctx, cfg, r, h, label, case, i, un, hun, href, refcfg, models.get("p%d_%d" % (i, rep)), points, nsetup, dis)
             ntr += 1
         ctx.extra.setdefault("points_per_run", []).append(P)
+    early_exits(ctx, tg, wd, dis, use_model)
     if not ctx.quick():
         async_stream(ctx, tg, wd, tfile)
     ctx.extra["traces_validated_against_impl"] = ntr
